@@ -9,7 +9,6 @@ import (
 	"os"
 	"sort"
 	"strings"
-	"time"
 
 	"verif/harness/sut"
 )
@@ -614,12 +613,13 @@ func cmdRecord(args []string) int {
 		fmt.Fprintf(bw, "{\"start\":%q}\n", ts.ID)
 		bw.Flush()
 		done := make(chan TraceOut, 1)
-		go func() { done <- recordTrace(ts, ks, work) }()
+		fin := make(chan struct{})
+		go func() { done <- recordTrace(ts, ks, work); close(fin) }()
 		var r TraceOut
-		select {
-		case r = <-done:
-		case <-time.After(behaviourTimeout):
+		if stalled(fin) {
 			r = TraceOut{ID: ts.ID, Hang: true, Dump: goroutineDump()}
+		} else {
+			r = <-done
 		}
 		line, _ := json.Marshal(r)
 		bw.Write(line)
